@@ -663,6 +663,41 @@ def r7(k: Kit) -> None:
     rep.floor('C20.R7', 'accept_handler call sites', n, 2)
 
 
+def r9(k: Kit) -> None:
+    """Data that arrives with the open confirmation waits for the relay."""
+    rep = k.rep
+    rep.rule('C20.R9', 'SSHForwardChannel._open_forward: after the session '
+             'was created, reading from the channel is started by a task '
+             '(create_task(self._start_reading())), never synchronously: '
+             'the caller (forward_tunneled_connection and its UNIX twin) '
+             'links the new forwarder to its peer only after _open_forward '
+             'returned, and data flushed before that lands in a buffer '
+             'nobody replays - a far end that speaks first loses its '
+             'greeting')
+    fi = k.func('channel.SSHForwardChannel._open_forward')
+    g = k.cfg(fi)
+    direct = [n for n, c in k.calls_named(fi, 'resume_reading', 'self')] + \
+        [n for n, c in k.calls_named(fi, '_flush_recv_buf', 'self')]
+    tasks = [n for n, c in k.call_nodes(
+        fi, lambda c: is_call(c, 'create_task') and
+        '_start_reading' in unparse(c))]
+    rep.check(not direct and bool(tasks), 'C20.R9',
+              key(fi, 'reading starts in a task'),
+              'reading is started by a task once the caller has returned',
+              'the channel is resumed synchronously inside _open_forward: '
+              'bytes that came with the open confirmation are delivered to '
+              'a forwarder that has no peer yet and are dropped',
+              k.loc(fi, direct[0]) if direct else fi.loc(fi.node))
+    rets = [n for n in g.nodes if isinstance(n.ast, ast.Return)]
+    for r in rets:
+        w = g.must_pass([t.id for t in tasks], dst=r.id, follow_exc=False)
+        rep.check(w is None, 'C20.R9', key(fi, 'every return starts reading'),
+                  'the task is created on every path to the return',
+                  'a path returns the session without ever starting to '
+                  'read: the forwarded connection never delivers data',
+                  k.loc(fi, r), g.describe_path(w) if w else None)
+
+
 def run(idx, rep, tier):
     k = Kit(idx, rep)
     rep.assumptions += NOT_DECIDED
@@ -673,6 +708,7 @@ def run(idx, rep, tier):
     r5(k)
     r6(k)
     r7(k)
+    r9(k)
     # C20.R8: a forwarded stream is a channel stream: EOF is sent after all
     # queued data and delivered after all buffered data (= C07.R2), also
     # when the destination applies back-pressure
@@ -686,3 +722,10 @@ def run(idx, rep, tier):
     c07r2(k)
     for o in rep.obligations[before:]:
         o.rule = 'C20.R8'
+    # C20.R10: shared rule
+    from .c05 import r5 as _c05r5
+    rep.rule('C20.R10', 'restrictions of the credential (= C05.R5): permitopen / permitlisten / no-port-forwarding / certificate options are tested before the application callback on every open and listen path, whatever the callback then answers')
+    _before = len(rep.obligations)
+    _c05r5(k)
+    for o in rep.obligations[_before:]:
+        o.rule = 'C20.R10'
